@@ -98,6 +98,10 @@ def run(ctx):
     writer_model(ctx, "R1")
     loader_model(ctx, "R2")
     _inplace_signers(ctx)
+    # "canonical form" is what the one serializer produces (C07-R1, re-evaluated here)
+    from .c07 import serializer_config
+
+    serializer_config(ctx.sub("DEP-C07"))
 
 
 def _inplace_signers(ctx, rule="R3"):
